@@ -21,6 +21,10 @@ def content_bytes(c):
         return bytes(c["zeros"])            # big files (behaviour that depends on a size threshold)
     if "sparse" in c:
         return bytes(c["sparse"])           # a hole: length n, (almost) no allocated blocks - see materialise()
+    if "tailhole" in c:
+        # data followed by a hole that reaches the end of the file
+        head = bytes(bytearray(hashlib.shake_128(b"fam:%d" % c.get("fam", 0)).digest(c.get("len", 0))))
+        return head + bytes(c["tailhole"] - len(head))
     n = c.get("len", 0)
     if "uniq" in c:
         return hashlib.shake_128(("uniq:" + c["uniq"]).encode()).digest(n)
@@ -96,6 +100,10 @@ class World:
                 with open(p, "wb") as f:
                     if "sparse" in e["c"]:
                         f.truncate(e["c"]["sparse"])
+                    elif "tailhole" in e["c"]:
+                        data = content_bytes(e["c"])
+                        f.write(data[:e["c"].get("len", 0)])
+                        f.truncate(e["c"]["tailhole"])
                     else:
                         f.write(content_bytes(e["c"]))
                 if "mode" in e:
